@@ -162,6 +162,14 @@ func (vc *VC) assumeFrame(s *State, name string) {
 	s.assume(Forall([]*Term{r}, Implies(And(conds...), Eq(Select(cur, r), Select(old, r))), []*Term{Select(cur, r)}))
 }
 
+// loadedDeep: like loaded, for values that do not come from the heap (parameters, havocked locals, call results):
+// slices of references additionally get the element-wise allocation/typing fact (heap cells have it from rootFact).
+func (vc *VC) loadedDeep(s *State, t types.Type, v *Term, hint string) *Term {
+	deepInv = true
+	defer func() { deepInv = false }()
+	return vc.loaded(s, t, v, hint)
+}
+
 // allocRef returns a fresh non-nil reference.
 // rtype: dynamic type tag of a reference (references of different Go types share one integer space).
 var typeIDs = map[string]int64{}
